@@ -16,7 +16,9 @@ def h_left_step(ctx, d, i, n, rl, rr, inplace):
     ranks = [1] + [2] * (d - 1) + [1]
     ranks[i] = rl if i > 0 else 1
     ranks[i + 1] = rr
-    Y = ctx.tt('y', [n] * d, ranks)
+    ns = [2] * d
+    ns[i] = n
+    Y = ctx.tt('y', ns, ranks)
     rows = ranks[i] * n
     k = min(rows, rr)
     Q = householder_frame(ctx, 'q', rows, k)
@@ -27,7 +29,8 @@ def h_left_step(ctx, d, i, n, rl, rr, inplace):
     Y0 = [G.copy() for G in Y]
     objs = list(Y)
     Z = teneva.orthogonalize_left(Y, i, inplace=inplace)
-    ctx.claim('well_formed', well_formed(Z, [n] * d))
+    ctx.claim('well_formed', well_formed(Z, ns))
+    ctx.claim('no_rank_increase', all(Z[j].shape[2] <= Y0[j].shape[2] for j in range(d)))
     ctx.claim('tensor_preserved', ctx.all_eq(ref_full(Z), ref_full(Y0)))
     U = rF(Z[i], (-1, Z[i].shape[2]))
     ctx.claim('orthonormal_columns', ctx.all_eq(U.T @ U, eye(ctx, U.shape[1])))
@@ -47,7 +50,9 @@ def h_right_step(ctx, d, i, n, rl, rr, inplace):
     ranks = [1] + [2] * (d - 1) + [1]
     ranks[i] = rl
     ranks[i + 1] = rr if i < d - 1 else 1
-    Y = ctx.tt('y', [n] * d, ranks)
+    ns = [2] * d
+    ns[i] = n
+    Y = ctx.tt('y', ns, ranks)
     cols = n * ranks[i + 1]
     k = min(rl, cols)
     Q = householder_frame(ctx, 'q', cols, k).T
@@ -58,7 +63,8 @@ def h_right_step(ctx, d, i, n, rl, rr, inplace):
     Y0 = [G.copy() for G in Y]
     objs = list(Y)
     Z = teneva.orthogonalize_right(Y, i, inplace=inplace)
-    ctx.claim('well_formed', well_formed(Z, [n] * d))
+    ctx.claim('well_formed', well_formed(Z, ns))
+    ctx.claim('no_rank_increase', all(Z[j].shape[2] <= Y0[j].shape[2] for j in range(d)))
     ctx.claim('tensor_preserved', ctx.all_eq(ref_full(Z), ref_full(Y0)))
     V = rF(Z[i], (Z[i].shape[0], -1))
     ctx.claim('orthonormal_rows', ctx.all_eq(V @ V.T, eye(ctx, V.shape[0])))
@@ -225,14 +231,28 @@ def h_sweep_chain3(ctx, n, k):
     ctx.claim('argument_untouched', all(bool(ctx.all_eq(Y[j], Y0[j])) for j in range(d)))
 
 
+def h_sweep_stab_quasi(ctx, d, n, k):
+    """Stabilised complete sweep: input = 2^p * Z (see also C16)."""
+    from harness.c16 import h_orth_stab_quasi
+    h_orth_stab_quasi(ctx, d, n, k)
+
+
 def instances(tier):
     out = []
-    # single steps: (d, i, n, rl, rr): tall, square, over-ranked
-    left = [(2, 0, 2, 1, 2), (2, 0, 2, 1, 3), (3, 1, 2, 2, 2), (3, 1, 1, 2, 3), (2, 0, 3, 1, 2)]
-    right = [(2, 1, 2, 2, 1), (2, 1, 2, 3, 1), (3, 1, 2, 2, 2), (3, 1, 1, 3, 2), (2, 1, 3, 2, 1)]
+    # single steps: (d, i, n, rl, rr): every combination of mode size 1..2 and
+    # ranks 1..3 on both sides (tall, square, over-ranked, mode size 1)
+    left = [(2, 0, 2, 1, 2), (2, 0, 2, 1, 3), (2, 0, 3, 1, 2), (2, 0, 1, 1, 2)]
+    right = [(2, 1, 2, 2, 1), (2, 1, 2, 3, 1), (2, 1, 3, 2, 1), (2, 1, 1, 2, 1)]
+    for n in (1, 2):
+        for rl in (1, 2, 3):
+            for rr in (1, 2, 3):
+                if n == 2 and rl == 3 and rr == 3 and tier == 'quick':
+                    continue
+                left.append((3, 1, n, rl, rr))
+                right.append((3, 1, n, rl, rr))
     if tier == 'thorough':
-        left += [(3, 1, 2, 2, 3), (3, 0, 3, 1, 3), (4, 2, 2, 2, 2)]
-        right += [(3, 1, 2, 3, 2), (3, 2, 3, 3, 1), (4, 1, 2, 2, 2)]
+        left += [(3, 0, 3, 1, 3), (4, 2, 2, 2, 2)]
+        right += [(3, 2, 3, 3, 1), (4, 1, 2, 2, 2)]
     for (d, i, n, rl, rr) in left:
         for inplace in (False, True):
             out.append({'func': 'h_left_step', 'params': {'d': d, 'i': i, 'n': n, 'rl': rl, 'rr': rr, 'inplace': inplace}})
@@ -244,6 +264,10 @@ def instances(tier):
     for d, n in ([(3, 2), (4, 2)] if tier == 'quick' else [(3, 2), (4, 2), (3, 3), (5, 2)]):
         for k in range(d):
             out.append({'func': 'h_sweep_quasi', 'params': {'d': d, 'n': n, 'k': k}})
+    for d, n in ([(3, 2)] if tier == 'quick' else [(3, 2), (4, 2)]):
+        for k in range(d):
+            out.append({'func': 'h_sweep_stab_quasi', 'params': {'d': d, 'n': n, 'k': k},
+                        'opts': {'symbolic_signs': False}})
     for (n1, n2, r) in [(2, 2, 2), (2, 3, 2), (3, 2, 3)]:
         for k in (0, 1):
             out.append({'func': 'h_sweep_d2', 'params': {'n1': n1, 'n2': n2, 'r': r, 'k': k}})
